@@ -334,8 +334,8 @@ def run_case(case):
 def summarise(agg, tier):
     q = tier == "quick"
     return {
-        "thresholds": {"direct_cases": 6000 if q else 30000, "multi_stripe_sets": 1200 if q else 8000, "stripes": 4000 if q else 100000, "multi_stripe_passes": 100 if q else 5000,
-                       "multi_slice_passes": 30 if q else 1500, "receptive_checks": 2000 if q else 50000, "rolling_rows_checked": 200 if q else 10000, "upscaled_receptive_checks": 150 if q else 4000},
+        "thresholds": {"direct_cases": 6000 if q else 25000, "multi_stripe_sets": 1200 if q else 6500, "stripes": 4000 if q else 100000, "multi_stripe_passes": 100 if q else 5000,
+                       "multi_slice_passes": 30 if q else 1100, "receptive_checks": 2000 if q else 50000, "rolling_rows_checked": 200 if q else 10000, "upscaled_receptive_checks": 150 if q else 4000},
         "rule": "direct: OFM height 1..12 x every stripe height x kernel 1..8 x stride 1..3 x dilation 1..2 x SAME/VALID/explicit pads x write offsets {0,3} x read offsets {0,2} "
                 "(quick: reduced heights/steps); pipeline: every NpuStripe of compilations of striping-prone families under Size strategy / small caches. distinct = shards + "
                 "(family, accelerator, #passes) classes",
